@@ -747,6 +747,16 @@ package server
 
 // dispatch: walks the log from the last published index + 1, never skips an entry, and advances only
 // past entries that are handled; the entry handed to handleRaftLog is the one at the current index
+// BecomeLeader ("the dispatcher is started and stopped with controller leadership"): every term this server leads with
+// the activity stream enabled gets a dispatcher of its own, watching a channel made for this term - whatever a
+// dispatcher of an earlier term is still doing (it watches that term's closed channel and goes away)
+//@ ghost var dispatcherStarted bool
+//@ func (*activityManager).BecomeLeader serves C18
+//@   assumes a != nil && a.Server != nil && a.config != nil
+//@   ghost at entry: ghost.dispatcherStarted := false
+//@   ghost after call startGoroutine: ghost.dispatcherStarted := true
+//@   ensures [C18:a-term-of-leadership-gets-its-dispatcher] result == nil && a.config.ActivityStream.Enabled ==> ghost.dispatcherStarted
+//@   call startGoroutine requires [C18:a-channel-made-for-this-term-is-in-place-before-its-dispatcher-starts] a.leadershipLostCh != nil && fresh(a.leadershipLostCh)
 //@ func (*activityManager).dispatch serves C18
 //@   requires a != nil
 //@   ghost after call LastPublishedRaftIndex: ghost.start := uint64(ret0 + 1)
